@@ -976,3 +976,86 @@ def _(c):
     e = rng.uniform(0.01, 0.99, size=(c["n"], c["m"]))
     idx = np.sort(rng.randint(0, 3, size=c["n"])).astype(np.int64)
     RO_FUNCS[c["fn"]](u, e, idx)
+
+
+# ------------------------------------------- sizes at and around round numbers
+# (internal work buffers of a fixed size: 10, 100, 128, 500, 512, 1000, ...)
+SIZES = [9, 10, 11, 15, 16, 17, 31, 32, 33, 63, 64, 65, 99, 100, 101, 127,
+         128, 129, 199, 200, 201, 255, 256, 257, 499, 500, 501, 511, 512, 513,
+         999, 1000, 1001, 1023, 1024, 1025]
+
+
+def sizes_enum(tier):
+    sizes = SIZES if tier == "quick" else SIZES + [
+        1999, 2000, 2001, 2047, 2048, 2049, 4095, 4096, 4097, 9999, 10000,
+        10001, 16383, 16384, 16385]
+    for fn in ("crps", "dscore+pit", "ad+cvm", "aggregate", "armodels",
+               "pareto", "polygon", "inlets"):
+        for m in sizes:
+            if fn == "inlets" and m > 300:
+                continue
+            yield {"fn": fn, "m": m, "extreme": True}
+
+
+def sizes_call(c):
+    m, fn = c["m"], c["fn"]
+    rng = np.random.RandomState(m)
+    if fn == "crps":
+        metrics.crps(rng.normal(size=3), rng.normal(size=(3, m)))
+        metrics.crps(rng.normal(size=m), rng.normal(size=(m, 3)))
+    elif fn == "dscore+pit":
+        e = rng.normal(size=(3, m))
+        metrics.dscore(np.arange(3.), e)
+        metrics.pit(rng.normal(size=3), e)
+        metrics.dscore(np.arange(float(m)), rng.normal(size=(m, 2)))
+    elif fn == "ad+cvm":
+        u = rng.uniform(0.01, 0.99, size=m)
+        metrics.anderson_darling_test(u)
+        metrics.cramer_von_mises_test(u)
+    elif fn == "aggregate":
+        x = rng.normal(size=m)
+        for idx in (np.zeros(m, dtype=np.int64),
+                    np.arange(m, dtype=np.int64),
+                    (np.arange(m) // 7).astype(np.int64)):
+            dutils.aggregate(idx, x, 1, 0)
+            dutils.flathomogen(idx, x, 0)
+    elif fn == "armodels":
+        x = rng.normal(size=m)
+        p = np.full(min(10, max(1, m % 11)), 0.05)
+        armodels.armodel_residual(p, armodels.armodel_sim(p, x), 0.)
+    elif fn == "pareto":
+        sutils.pareto_front(rng.normal(size=(m, 2)))
+        sutils.pareto_front(rng.normal(size=(3, min(m, 64))))
+    elif fn == "polygon":
+        t = np.linspace(0, 2 * np.pi, m, endpoint=False)
+        poly = np.column_stack([np.cos(t), np.sin(t) * (1 + 0.3 * (
+            np.arange(m) % 2))])
+        gutils.points_inside_polygon(rng.uniform(-1.5, 1.5, size=(50, 2)),
+                                     poly)
+        gutils.points_inside_polygon(rng.uniform(-1.5, 1.5, size=(m, 2)),
+                                     poly[:max(3, min(m, 12))])
+    elif fn == "inlets":
+        # a channel of m + 5 cells with m inlets listed downstream-first
+        n = m + 5
+        g = Grid("fd", n, 1, dtype=np.int64)
+        g.data = np.full((1, n), 16, dtype=np.int64)
+        ca = Catchment("c", g)
+        ca.delineate_area(0, list(range(n - 1, n - 1 - m, -1)))
+        ca.upstream(np.arange(n))
+        voronoi(ca, rng.uniform(0, n, size=(min(m, 50), 2)))
+    else:
+        raise KeyError(fn)
+
+
+def sizes_oracle(case):
+    res = forked(lambda: seeded(sizes_call, case))
+    if res == "TIMEOUT":
+        return {"nt": False, "labels": ["timeout:inconclusive:" + case["fn"]]}
+    if res is not None:
+        raise Violation(f"sanitizer/crash [{bucket(res)}]: {res}")
+    return {"nt": True, "labels": ["sizes:" + case["fn"]]}
+
+
+SUBS.append(Sub("C05.sizes-around-round-numbers", sizes_oracle,
+                enumerate=sizes_enum, shards=(16, 16), budget=(600, 3600),
+                bucket=lambda msg: bucket(msg.split("]: ", 1)[-1])))
